@@ -62,6 +62,17 @@ open Gen
   unfold handleData; dsimp only; repeat' split
   all_goals first | rfl | simp
 
+@[simp] theorem ensureStreams_ackState (ids : List (BitVec 16)) (s : St) : ((ensureStreams s ids).1).ackState = s.ackState := by
+  induction ids generalizing s with
+  | nil => rfl
+  | cons id ids ih =>
+    simp only [ensureStreams]
+    split
+    · exact ih s
+    · split
+      · rw [ih]; simp
+      · simp
+
 @[simp] theorem fwdEntry_ackState (s : St) (e : BitVec 16 × BitVec 16) : (fwdEntry s e).ackState = s.ackState := by
   unfold fwdEntry; dsimp only; repeat' split
   all_goals first | rfl | simp
@@ -151,6 +162,17 @@ open Gen
   unfold handleData; dsimp only; repeat' split
   all_goals first | rfl | simp
 
+@[simp] theorem ensureStreams_timer (ids : List (BitVec 16)) (s : St) : ((ensureStreams s ids).1).timer = s.timer := by
+  induction ids generalizing s with
+  | nil => rfl
+  | cons id ids ih =>
+    simp only [ensureStreams]
+    split
+    · exact ih s
+    · split
+      · rw [ih]; simp
+      · simp
+
 @[simp] theorem fwdEntry_timer (s : St) (e : BitVec 16 × BitVec 16) : (fwdEntry s e).timer = s.timer := by
   unfold fwdEntry; dsimp only; repeat' split
   all_goals first | rfl | simp
@@ -234,6 +256,17 @@ open Gen
 
 @[simp] theorem staleFwd_immTrig (s : St) : (staleFwd s).immTrig = s.immTrig := by
   rfl
+
+@[simp] theorem ensureStreams_immTrig (ids : List (BitVec 16)) (s : St) : ((ensureStreams s ids).1).immTrig = s.immTrig := by
+  induction ids generalizing s with
+  | nil => rfl
+  | cons id ids ih =>
+    simp only [ensureStreams]
+    split
+    · exact ih s
+    · split
+      · rw [ih]; simp
+      · simp
 
 @[simp] theorem fwdEntry_immTrig (s : St) (e : BitVec 16 × BitVec 16) : (fwdEntry s e).immTrig = s.immTrig := by
   unfold fwdEntry; dsimp only; repeat' split
@@ -327,6 +360,17 @@ open Gen
 
 @[simp] theorem staleFwd_delTrig (s : St) : (staleFwd s).delTrig = s.delTrig := by
   rfl
+
+@[simp] theorem ensureStreams_delTrig (ids : List (BitVec 16)) (s : St) : ((ensureStreams s ids).1).delTrig = s.delTrig := by
+  induction ids generalizing s with
+  | nil => rfl
+  | cons id ids ih =>
+    simp only [ensureStreams]
+    split
+    · exact ih s
+    · split
+      · rw [ih]; simp
+      · simp
 
 @[simp] theorem fwdEntry_delTrig (s : St) (e : BitVec 16 × BitVec 16) : (fwdEntry s e).delTrig = s.delTrig := by
   unfold fwdEntry; dsimp only; repeat' split
